@@ -220,6 +220,18 @@ PROPS["C09"].setdefault("also", []).append(dict(prop="C09T", variant="vt", share
 PROPS["C09"]["rule"] += (" An eighth of the worker slots runs C09T (go1.26.8 synctest bubble): two loads overlap in virtual time on one store, the first is given up "
                          "(context deadline or fetch timeout) while blocks are still on their way, the second must rebuild exactly the log it was asked for.")
 
+# C20: a quarter of the worker slots runs the concurrent keystore world (E1 task scheduler; the keystore's cache and
+# datastore calls are scheduling points inserted at build time by sim/cmd/yieldgen through a compiler overlay)
+PROPS["C20"].setdefault("also", []).append(dict(prop="C20c", variant="plain", share=0.15))
+PROPS["C20"]["also"].append(dict(prop="C20c", variant="race", share=0.15))  # the same runs under the race detector
+PROPS["C20"]["rule"] += (" Three in ten worker slots run C20c (half of them under the race detector): 100-160 keys (either side of the cache capacity) on 1-2 instances, then 2-3 tasks doing get / has / create of "
+                         "distinct new ids on them concurrently under the seeded task scheduler, switched before every cache or datastore call of the keystore; oracle: a key created "
+                         "earlier is present and identical in every interleaving, an id never created is absent, a key being created is absent or the creator's key, and afterwards "
+                         "every instance and a new one agree with the model.")
+PROPS["C20"]["assumptions"] = [a for a in PROPS["C20"]["assumptions"] if not a.startswith("keystore operations are atomic")] + [
+    "in the sequential keystore worlds operations are atomic events; interleavings inside operations are explored by the C20c runs, for key-level operations only (identities are not created concurrently for one new id)"]
+PROPS["C20"]["expected_probes"] = PROPS["C20"]["expected_probes"] + ["concurrent-keystore-tasks"]
+
 for _p in ("C06", "C07", "C08", "C09", "C10", "C11", "C12", "C18"):
     PROPS[_p].setdefault("also", []).append(dict(prop=_p, variant="race", share=0.2))
     PROPS[_p]["rule"] += " A fifth of the runs execute under the race detector (a report kills the worker with exit 66 and is attributed to the run)."
